@@ -398,7 +398,11 @@ def r3_one_template(R) -> None:
     # the text that is tokenised is the statement as given: nothing rewrites it first
     if isinstance(arg, ast.Name):
         defs_ = f.lf.defs_reaching(lp.id, arg.id)
-        rewritten = [d_ for d_ in defs_ if d_ != PARAM]
+        # a rewrite made only under an option that is off by default is outside the property's (default) syntax
+        rewritten = [d_ for d_ in defs_ if d_ != PARAM and not f.off_by_default(d_)]
+        for d_ in defs_:
+            if d_ != PARAM and f.off_by_default(d_):
+                R.ok(f.q, f'`{f.cfg.nodes[d_].label()[:60]}` rewrites the text only under an option that is off by default', detail=f.off_by_default(d_))
         R.check(not rewritten and arg.id in f.fi.params(), f.q, 'text-as-written:' + arg.id, 'the statement is tokenised as written (no rewriting of the text before the terms are cut)',
                 f'`{arg.id}` is rewritten (`{f.cfg.nodes[rewritten[0]].label()[:70] if rewritten else ""}`) before it is tokenised: notation the grammar does not define would be '
                 f'turned into terms (e.g. a call `abs(-2)` read as a lag)', where=f.where(f.cfg.nodes[rewritten[0]]) if rewritten else f.fi.where)
@@ -437,23 +441,42 @@ def r3_one_template(R) -> None:
     # parse_terms twin
     pt = Fn(R, f'{P}.parse_terms')
     tw = False
+    read_any = False
     for r in pt.returns():
         lc = pt.as_listcomp(r.id, r.ast.value) if r.ast.value is not None else None
+        if lc is None and r.ast.value is not None:
+            # list(backend(expression, term_re)): read through a module-level backend (memoised or not)
+            v_ = r.ast.value
+            while is_call(v_, 'list', 'tuple') and len(v_.args) == 1:
+                v_ = v_.args[0]
+            if isinstance(v_, ast.Call) and isinstance(v_.func, ast.Name):
+                from fsa.summ import summarise_return, _subst
+                g_ = [s_ for s_ in pt.fi.module.tree.body if isinstance(s_, ast.FunctionDef) and s_.name == v_.func.id]
+                rv = summarise_return(g_[0], lenient=True) if g_ else None
+                if rv is not None and len(v_.args) == len(g_[0].args.args) and not v_.keywords:
+                    body = _subst(rv, dict(zip([a_.arg for a_ in g_[0].args.args], v_.args)))
+                    while is_call(body, 'list', 'tuple') and len(body.args) == 1:
+                        body = body.args[0]
+                    if isinstance(body, (ast.ListComp, ast.GeneratorExp)):
+                        lc = body
         if lc is None or len(lc.generators) != 1:
             continue
+        read_any = True
         g = lc.generators[0]
         from fsa.match import nnf_atoms
         conds = [(text(a_), tr) for c_ in g.ifs for (a_, tr) in nnf_atoms(c_, True)]
         if pt.etext(r.id, g.iter).startswith('term_re.finditer(') and conds == [(f'any({text(g.target)}.groups())', True)]:
             tw = True
+    if not tw and not read_any:
+        raise Unknown(f'{pt.q}: no return value could be read as a comprehension over the regex matches')
     R.check(tw, pt.q, 'parse-terms-filter', 'parse_terms iterates term_re with the same filter',
             'parse_terms does not iterate `term_re.finditer(...)` filtered by `any(m.groups())`', where=pt.fi.where)
 
 
 def r4_index_parsing(R) -> None:
     from rules.parser_roles import TermMatch
-    q = f'{P}.parse_terms.<locals>.process_term_match'
     tm = TermMatch(R)
+    q = tm.q
     f = tm.f
     lv = tm.index_leaves()
     ok0 = False
